@@ -26,7 +26,7 @@ type Validated struct {
 	ExitPaths []map[string]bool // fact sets of the individual accepting paths (loop indices normalised)
 	IterPaths []map[string]bool
 	Exit      map[string]bool
-	Iter      map[string]bool // facts holding in every accepted iteration (loop indices normalised)
+	Iter      map[string]bool     // facts holding in every accepted iteration (loop indices normalised)
 	Attrs     map[string]AtomAttr // sign classes of parsed decimals proven on every accepting exit path
 	OK        bool
 }
@@ -122,7 +122,9 @@ func checkC06(c *Ctx, e *Env) {
 		fmt.Printf("DBG C06 explored at %v\n", time.Since(c.Start))
 	}
 	noteUndecided(c, m, r, "C06.E1")
-	ruleArith(c, e, "C06.ARITH", func(ep *EntryPoint) bool { return ep.Service == "marketplace" && (ep.Kind == "msg" || ep.Kind == "beginblock") })
+	ruleArith(c, e, "C06.ARITH", func(ep *EntryPoint) bool {
+		return ep.Service == "marketplace" && (ep.Kind == "msg" || ep.Kind == "beginblock")
+	})
 	nPaths := 0
 	for _, h := range r.Handlers {
 		touches := false
